@@ -28,7 +28,19 @@ var allFormats = []gozxing.BarcodeFormat{
 }
 
 func c12Content(rng *fw.Rand, ws *writerSpec) string {
-	switch rng.Intn(15) {
+	switch rng.Intn(16) {
+	case 15: // text of one letter case / digits with one or two characters from the edges of the
+		// code ranges (controls, DEL, 0x80, 0x9F, 0xA0, 0xFF) placed inside, as Latin-1 text
+		alpha := []string{"abcdefghijklmnopqrstuvwxyz ", "ABCDEFGHIJKLMNOPQRSTUVWXYZ ", "0123456789", "ABC*>\r 123"}[rng.Intn(4)]
+		edges := []rune{0x00, 0x1B, 0x1F, 0x20, 0x7E, 0x7F, 0x80, 0x9F, 0xA0, 0xFE, 0xFF}
+		rs := make([]rune, 3+rng.Intn(30))
+		for i := range rs {
+			rs[i] = rune(alpha[rng.Intn(len(alpha))])
+		}
+		for k := 1 + rng.Intn(2); k > 0; k-- {
+			rs[rng.Intn(len(rs))] = edges[rng.Intn(len(edges))]
+		}
+		return string(rs)
 	case 14: // decimal digits outside ASCII, alone and mixed with ASCII digits (even byte lengths included)
 		alt := []string{"\u0661", "\u0662", "\uff11", "\uff19", "\u0967"}
 		var sb strings.Builder
@@ -216,9 +228,22 @@ func c12Natural(ws *writerSpec, content string, format gozxing.BarcodeFormat, hi
 	return bm.GetWidth(), bm.GetHeight(), true
 }
 
+// c12Shared: when non-nil, the writer instance and the previous content of the current case
+// (odd-numbered cases keep one instance for all their calls, and repeat the previous content
+// under new hints and sizes one time in three).
+var c12Shared gozxing.Writer
+var c12Prev *string
+
 func c12One(r *fw.Rec, ws *writerSpec) bool {
 	rng := r.Rng
 	content := c12Content(rng, ws)
+	if c12Prev != nil {
+		if *c12Prev != "" && rng.Intn(3) == 0 {
+			content = *c12Prev
+			r.Tally("same_content_again_on_the_same_instance")
+		}
+		*c12Prev = content
+	}
 	format := ws.Format
 	if rng.Intn(3) == 0 {
 		format = allFormats[rng.Intn(len(allFormats))]
@@ -259,11 +284,15 @@ func c12One(r *fw.Rec, ws *writerSpec) bool {
 	exceeded := false
 	msg, stack, panicked := fw.Guard(func() {
 		exceeded, _, _ = dmGuard(8*len(content)+32, func() {
+			wr := c12Shared
+			if wr == nil {
+				wr = ws.New()
+			}
 			if hints == nil && len(content)%2 == 0 {
-				bm, err = ws.New().EncodeWithoutHint(content, format, w, h)
+				bm, err = wr.EncodeWithoutHint(content, format, w, h)
 				hdesc = "(EncodeWithoutHint)"
 			} else {
-				bm, err = ws.New().Encode(content, format, w, h, hints)
+				bm, err = wr.Encode(content, format, w, h, hints)
 			}
 		})
 	})
@@ -358,7 +387,7 @@ func clipStr(s string, n int) string {
 }
 
 func c12(c *fw.Ctx) {
-	c.Rule("all 11 writers x seeded random (content class, format from all 17 values, width/height from {-2^31, -1, 0, 1, small, 0..400, 20000} (plus, per writer, three requests beyond 2^31 pixels), hint-less calls half through EncodeWithoutHint, hint maps over the ten accepted hint keys with in- and out-of-range values of the accepted types); per call: recover() for panics, dispatch-step hook for the Data Matrix mode loop, CPU/heap budget, exactly one of matrix/error, matrix >= the symbol's module count (same writer and hints at 0x0, margin 0) and, for QR/1-D, >= max(requested, 1); distinct = distinct (writer, content, format, size, hints) that returned a matrix")
+	c.Rule("all 11 writers x seeded random (content class, format from all 17 values, width/height from {-2^31, -1, 0, 1, small, 0..400, 20000} (plus, per writer, three requests beyond 2^31 pixels), hint-less calls half through EncodeWithoutHint, hint maps over the ten accepted hint keys with in- and out-of-range values of the accepted types); every second case keeps ONE writer instance for its 12 calls and repeats the previous content under new hints and sizes one time in three; per call: recover() for panics, dispatch-step hook for the Data Matrix mode loop, CPU/heap budget, exactly one of matrix/error, matrix >= the symbol's module count (same writer and hints at 0x0, margin 0) and, for QR/1-D, >= max(requested, 1); distinct = distinct (writer, content, format, size, hints) that returned a matrix")
 	c.Assume("hint values are of the types documented in encode_hint_type.go (FORCE_CODE_SET: string; MIN/MAX_SIZE: *Dimension incl. nil; ERROR_CORRECTION: ErrorCorrectionLevel or string; MARGIN/QR_VERSION/QR_MASK_PATTERN: int or string; GS1_FORMAT: bool or string)")
 	n := c.Pick(450, 25000)
 	for wi := range allWriters {
@@ -366,6 +395,12 @@ func c12(c *fw.Ctx) {
 		for i := 0; i < n; i++ {
 			i := i
 			c.Run(fmt.Sprintf("%s/%d", ws.Name, i), func(r *fw.Rec) {
+				c12Shared, c12Prev = nil, nil
+				if i%2 == 1 {
+					prev := ""
+					c12Shared, c12Prev = ws.New(), &prev
+				}
+				defer func() { c12Shared, c12Prev = nil, nil }()
 				for rep := 0; rep < 12; rep++ {
 					if !c12One(r, ws) {
 						return
@@ -381,6 +416,7 @@ func c12(c *fw.Ctx) {
 		c.Run("huge/"+ws.Name, func(r *fw.Rec) { c12Huge(r, ws) })
 	}
 	c.Floor("calls_through_EncodeWithoutHint", 500)
+	c.Floor("same_content_again_on_the_same_instance", 1000)
 	// every writer x every format value, valid content
 	c.Run("formats", func(r *fw.Rec) {
 		for wi := range allWriters {
